@@ -22,6 +22,8 @@ from pathlib import Path
 VERIF = Path(__file__).resolve().parent.parent
 SPEC = VERIF / "spec"
 REPO = Path(os.environ.get("VERIF_REPO", "/repo"))
+# runs against a scratch copy (selftest, seedtest) must not touch the evidence / replay files of the real tree
+SCRATCH_REPO = REPO.resolve() != Path("/repo")
 JAR = "/opt/veriftools/tla/tla2tools.jar:/opt/veriftools/tla/CommunityModules-deps.jar"
 NCPU = os.cpu_count() or 4
 
@@ -470,7 +472,8 @@ def finish(ctx: Ctx) -> int:
     prop = ctx.prop
     wall = round(time.time() - ctx.t0, 2)
     (VERIF / "evidence").mkdir(exist_ok=True)
-    (VERIF / "replays").mkdir(exist_ok=True)
+    replay_dir = VERIF / "replays" / (f"scratch-{os.getpid()}" if SCRATCH_REPO else "")
+    replay_dir.mkdir(parents=True, exist_ok=True)
     seen_known = set()
     for f, c, rec in ctx.known:
         k = f.get("key", f.get("what"))
@@ -493,7 +496,7 @@ def finish(ctx: Ctx) -> int:
                     ordered.append(seen_c[k].pop(0))
         ctx.violations_for_replay = ordered
     for i, (c, rec, v) in enumerate(getattr(ctx, "violations_for_replay", [])[:20]):
-        p = VERIF / "replays" / f"{prop.id}-{ctx.seed}-{i}.json"
+        p = replay_dir / f"{prop.id}-{ctx.seed}-{i}.json"
         p.write_text(json.dumps({
             "property": prop.id, "clause": c, "gen": rec.get("gen"), "record": rec, "verdict": v,
             "replay_cmd": f"bin/check --replay {p}",
@@ -529,7 +532,8 @@ def finish(ctx: Ctx) -> int:
         "wall_s": wall,
         "violations": len(ctx.violations),
     }
-    (VERIF / "evidence" / f"{prop.id}.json").write_text(json.dumps(ev, indent=1))
+    if not SCRATCH_REPO:
+        (VERIF / "evidence" / f"{prop.id}.json").write_text(json.dumps(ev, indent=1))
     ctx.scratch.cleanup()
     print(f"{prop.id} [{ctx.tier}] states={ctx.states} transitions={ctx.transitions} "
           f"evaluations={ctx.evaluations} distinct={ctx.distinct} accepted={ctx.accepted} "
@@ -541,8 +545,9 @@ def run_prop(prop: Prop, tier: str, seed: int) -> int:
     import random
 
     ctx = Ctx(prop, tier, seed)
-    for old in (VERIF / "replays").glob(f"{prop.id}-*.json"):
-        old.unlink()
+    if not SCRATCH_REPO:
+        for old in (VERIF / "replays").glob(f"{prop.id}-*.json"):
+            old.unlink(missing_ok=True)
     try:
         use_repo()
         rnd = random.Random(seed)
